@@ -44,14 +44,16 @@ PROPS = {
     },
     "C07": {
         "props_files": ["Props/C07.v"],
-        "go_tests": ["TestVerifPolicy", "TestVerifDList", "TestVerifFlags"],
+        "go_tests": ["TestVerifPolicy", "TestVerifDList", "TestVerifFlags", "TestVerifClimber"],
         "level": "proof",
         "rule": "random insert / access / remove / cost-update / forced-climb sequences on the real TinyLfu for capacities 1..2000 "
                 "(tiny ones over-represented), costs skewed to 1, window capacity +-1 and the full capacity, sketch contents and "
                 "admission coin varied; non-trivial = >= 3 steps; distinct = sha1 of the recorded case",
         "trusted_base": [KERNEL, EXTRACT, HARNESS, "hook H7 (controllable Fastrand, build tag verif)",
-                         "modelled, not verified: float32 hill-climber arithmetic (the raw int(amount) is an input of the model, recomputed by the harness; "
-                         "the float32 initial window / protected capacities are read from the constructor); intrusive lists as Coq lists (justified: pointer-level model Model/DList.v proved to refine them, and compared with the real List); entry flags as booleans (justified: Model/Flags.v, bit table scraped from policy_flag.go); uint as Z mod 2^64"],
+                         "the raw int(amount) of a climb is an input of the policy model; the arithmetic that produces it is a model of its own (Model/Climber.v: Flocq's IEEE 754 binary32, "
+                         "compared bit for bit with the real climb()), and c07_climb_amounts_meet_guard shows every amount it can produce meets the policy theorems' guard - that one theorem rests on the "
+                         "standard library's real-number axioms (ClassicalDedekindReals.sig_forall_dec, sig_not_dec, Classical_Prop.classic, FunctionalExtensionality.functional_extensionality_dep), all others are axiom-free; "
+                         "modelled, not verified: the float32 initial window / protected capacities (read from the constructor); intrusive lists as Coq lists (justified: pointer-level model Model/DList.v proved to refine them, and compared with the real List); entry flags as booleans (justified: Model/Flags.v, bit table scraped from policy_flag.go); uint as Z mod 2^64"],
         "assumptions": ["costs are in 1..capacity (C06 covers rejection above capacity)"],
         "explanation": "structural invariant proved over all op sequences of the policy model; model replayed step by step against the real TinyLfu",
     },
@@ -235,10 +237,15 @@ PROPS["C09"] = {
             "hot set (10/30/50% of MaxSize) read with a 50/80% share while fresh never-read keys are inserted, 40*MaxSize operations, hit ratio of the hot set over the last quarter "
             "(threshold 0.90; observed minimum 0.95-0.98); Zipf(0.8/1.0/1.2) traces of 60*MaxSize operations over a universe of 20*MaxSize keys against an LRU of the same size "
             "(threshold LRU-0.01, LRU-0.03 below MaxSize 1000; observed theine >= LRU+0.019); MaxSize 50..5000 (quick) and up to 100000 (thorough); plain and loading caches; "
-            "fresh caches and caches first used by eight goroutines running the same workload concurrently",
+            "fresh caches and caches first used by eight goroutines running the same workload concurrently; a change of phase (mixed warm-up, about 350 samples of reads only, "
+            "then 50% one-off insertions for 600*MaxSize operations, eight warm-ups per size); and the real climb() stepped against the float32 model (300 chains of 20..700 samples: "
+            "drifting ratios, long all-hit periods then a collapse, changes at the restart threshold, extreme counters, states overwritten with arbitrary bit patterns)",
     "trusted_base": [KERNEL, EXTRACT, HARNESS,
                      "the convergence / hit-ratio claims are measured, not proved (statistical thresholds with margins chosen from the unchanged tree)",
-                     "modelled, not verified: float32 hill climber (input of the model)"],
+                     "the hill climber's float32 arithmetic is modelled with Flocq's IEEE 754 binary32 (Model/Climber.v) and compared bit for bit with the real climb(); the four climber theorems "
+                     "rest on the standard library's real-number axioms through Flocq (ClassicalDedekindReals.sig_forall_dec, sig_not_dec, Classical_Prop.classic, "
+                     "FunctionalExtensionality.functional_extensionality_dep); assumed: Go evaluates float32 expressions in binary32 round-to-nearest-even without fusing (amd64), "
+                     "float-to-int conversion out of range yields -2^63 (amd64)"],
     "assumptions": ["thresholds: hot-set hit ratio >= 0.90, Zipf hit ratio >= LRU - 0.01 (0.03 for MaxSize < 1000)"],
     "impl_only_traces": ["admission"],
     "monitor_tags": ["C09"],
